@@ -43,6 +43,9 @@ theorem keys_groupOf (s : List String) :
 
 theorem keys_depthGroupOrder : Keys.depthGroupOrder = SortRef.depthGroupOrder := rfl
 
+/-- `GenLocation` of flatten_name.go, translated from its `switch`, is the model's `Flatten.genLocation` -/
+theorem keys_genLocation : Keys.genLocation = Flatten.genLocation := by funext s; rfl
+
 theorem keys_all_translated : Keys.untranslated = [] := rfl
 
 end Generated
